@@ -24,7 +24,7 @@ CLAIM = {
  'design_ref': 'DESIGN.md section 6 C20',
 }
 
-RULE = ('valid files: bundled example_data plus generated RP66V1 (any conformant SUL, any body), LIS written by File.FileWrite '
+RULE = ('size independence: for every format, files whose header part (declarations, comment runs, titles, first visible record, records after the LIS header) or total size is 2^k + d for k = 9..16 and small d; path histories: one path reused for every ordered pair of contents (valid files of every format, damaged variants, non-files), identified through binary_file_type_from_path, an open file and a named in-memory file, each answer compared with the answer for the same bytes through a plain BytesIO; valid files: bundled example_data plus generated RP66V1 (any conformant SUL, any body), LIS written by File.FileWrite '
         '(reel/tape/file header first; TIF off/on/reversed; any PR length/trailer), LAS 1.2/2.0/3.0 layouts, BIT, DAT, SEG-Y, RP66V2, '
         'LISVER and magic-number formats, each with varying content and size; arbitrary bytes: random, every truncation length <= 400 '
         'and random longer ones, byte mutations/bit flips of valid files of every format, EBCDIC-printable blocks, LAS-like text with odd '
@@ -153,6 +153,8 @@ def materialise(case):
         b = open(os.path.join(_repo(), case['file']), 'rb').read()
     elif 'gen' in case:
         b = generate(case['gen'], case['seed'])[0]
+    elif 'sized' in case:
+        b = generate_sized(case['sized'], case['target'], case['seed'])[0]
     else:
         raise ValueError('case has no bytes')
     if 'trunc' in case:
@@ -211,12 +213,17 @@ def generate(name, seed):
     return G.gen_magic(rng, name)
 
 
+def generate_sized(name, target, seed):
+    from gen import c20_files as G
+    return G.gen_sized(random.Random(seed), name, target, pools())
+
+
 def case_of(b, origin):
     """A replayable record: the recipe, plus the bytes themselves when small."""
     case = dict(origin)
     if len(b) <= HEX_MAX:
         case['hex'] = b.hex()
-    elif 'file' not in case and 'gen' not in case:
+    elif 'file' not in case and 'gen' not in case and 'sized' not in case:
         case['z64'] = base64.b64encode(zlib.compress(b, 9)).decode()
     return case
 
@@ -396,6 +403,131 @@ def sul_like_dat(rng):
     return out
 
 
+class _NamedBytesIO(io.BytesIO):
+    """an in-memory file object that carries a `.name`, like the objects `open()` returns"""
+    def __init__(self, b, name):
+        super().__init__(b)
+        self.name = name
+
+
+HIST_MODES = ('path', 'fobj', 'named')
+
+
+def identify_via(bft, mode, path, b):
+    """One identification of the file at `path` (content `b` already written there) in the given mode."""
+    if mode == 'path':
+        return call_impl(bft, b, via_path=path)
+    old = signal.signal(signal.SIGALRM, _alarm)
+    signal.alarm(WALL_CAP)
+    where = None
+    t0 = time.process_time()
+    try:
+        try:
+            if mode == 'fobj':
+                with open(path, 'rb') as f:
+                    out = bft.binary_file_type(f)
+            else:
+                out = bft.binary_file_type(_NamedBytesIO(b, path))
+        except _Timeout:
+            out = 'TIMEOUT'
+        except BaseException as e:      # noqa
+            signal.alarm(0)
+            tb = traceback.extract_tb(e.__traceback__)
+            where = (os.path.basename(tb[-1].filename), tb[-1].name) if tb else ('?', '?')
+            out = 'EXC:' + type(e).__name__
+    finally:
+        signal.alarm(0)
+        signal.signal(signal.SIGALRM, old)
+    return {'out': out, 'cpu': time.process_time() - t0, 'pos_ok': True, 'where': where}
+
+
+def run_history(ctx, bft, root, steps, stream='history'):
+    """steps: [{'name': relative path, 'mode': one of HIST_MODES, 'content': recipe}].  After every step the answer must be
+    the answer for those bytes alone (a plain BytesIO, which no path-keyed state can reach): "the answer is a function of
+    the bytes".  Returns the index of the first failing step or None."""
+    for i, st in enumerate(steps):
+        b = materialise(st['content'])
+        path = os.path.join(root, st['name'])
+        os.makedirs(os.path.dirname(path), exist_ok=True)
+        with open(path, 'wb') as fh:
+            fh.write(b)
+        ref = call_impl(bft, b)['out']
+        res = identify_via(bft, st['mode'], path, b)
+        ctx.count('oracle_cases'); ctx.count('history_steps')
+        if res['out'] != ref:
+            ctx.fail({'history': steps[:i + 1]},
+                     f'step {i} ({st["mode"]}, {st["name"]}): answer {res["out"]!r} but these {len(b)} bytes alone give {ref!r}; '
+                     f'earlier contents at the same name: {[s["content"].get("label") for s in steps[:i] if s["name"] == st["name"]]} [{stream}]',
+                     finding=classify_finding(res), stream=stream)
+            return i
+        ctx.nontriv(hash((b, st['mode'], i)))
+    return None
+
+
+def history_contents(ctx):
+    """Small representative contents: one valid file per format (fresh each run), damaged variants and non-files."""
+    rng = ctx.rng
+    out = []
+    for name in GENS:
+        for _ in range(40):
+            seed = rng.getrandbits(48)
+            b, expect, rec = generate(name, seed)
+            if len(b) <= 40000 and not (name == 'lis' and rec.get('first_pr') == 276):
+                break
+        out.append({'gen': name, 'seed': seed, 'label': expect})
+        if name in SUPPORTED or name in ('rp66v1t', 'las30'):
+            cut = rng.choice([len(b) // 2, 37, max(len(b) - 3, 1)])
+            out.append({'gen': name, 'seed': seed, 'trunc': cut, 'label': expect + ':trunc%d' % cut})
+            if len(b) > 8:
+                i = rng.randrange(min(len(b), 24))
+                out.append({'gen': name, 'seed': seed, 'mut': [[i, b[i] ^ 0xff]], 'label': expect + ':mut%d' % i})
+    have = {c['label'] for c in out}
+    for _ in range(200):          # every TIF flavour of LIS
+        if {'LIS', 'LISt', 'LIStr'} <= have:
+            break
+        seed = rng.getrandbits(48)
+        b, expect, rec = generate('lis', seed)
+        if expect not in have and len(b) <= 40000 and rec.get('first_pr') != 276:
+            out.append({'gen': 'lis', 'seed': seed, 'label': expect}); have.add(expect)
+    for lab, hx in (('empty', ''), ('nul', '00' * 64), ('text', b'plain text\n'.hex()), ('garbage', bytes(range(256)).hex())):
+        out.append({'hex': hx, 'label': lab})
+    return out
+
+
+def run_histories(ctx, bft):
+    rng = ctx.rng
+    contents = history_contents(ctx)
+    labels = [c['label'] for c in contents]
+    root = os.path.join(ctx.scratch, 'hist')
+    k = 0
+    def fresh(basename):
+        nonlocal k
+        k += 1
+        return os.path.join('d%d' % k, basename)
+    # every ordered pair of contents at one path, the two identifications in any two modes
+    pairs = [(a, b) for a in range(len(contents)) for b in range(len(contents)) if a != b]
+    rng.shuffle(pairs)
+    lim = ctx.n(1500, len(pairs))
+    # make sure every (first is not LIS) -> (second is LIS) pair and its converse are in
+    is_lis = lambda c: str(c['label']).startswith('LIS') and ':' not in str(c['label'])
+    forced = [(a, b) for a, b in pairs if is_lis(contents[a]) != is_lis(contents[b])]
+    chosen = forced + [p for p in pairs if p not in set(forced)][:max(lim - len(forced), 0)]
+    for a, b in chosen:
+        name = fresh(rng.choice(['f.bin', 'same.dat', 'WELL.LIS', 'x']))       # the same base names recur in different directories
+        steps = [{'name': name, 'mode': rng.choice(HIST_MODES), 'content': contents[a]},
+                 {'name': name, 'mode': rng.choice(HIST_MODES), 'content': contents[b]}]
+        if rng.random() < 0.3:      # and back again
+            steps.append({'name': name, 'mode': rng.choice(HIST_MODES), 'content': contents[a]})
+        run_history(ctx, bft, root, steps)
+    # longer histories over two names that differ only in their directory
+    for _ in range(ctx.n(60, 600)):
+        n1, n2 = fresh('same.bin'), fresh('same.bin')
+        steps = [{'name': rng.choice([n1, n2]), 'mode': rng.choice(HIST_MODES), 'content': rng.choice(contents)} for _ in range(rng.randint(3, 8))]
+        run_history(ctx, bft, root, steps)
+    ctx.note(f'histories: {len(chosen)} ordered pairs of {len(contents)} contents ({", ".join(sorted(set(str(l) for l in labels)))[:400]}) at one path, '
+             f'modes {HIST_MODES}; reference = the same bytes through a plain BytesIO')
+
+
 def run(ctx):
     bft = _bft()
     rng = ctx.rng
@@ -423,6 +555,21 @@ def run(ctx):
         if len(b) > MODEL_MAX:     # the 64 KB prefix as an input of its own, so that the model sees these files too
             B.run_one('trunc:64k', b[:MODEL_MAX], dict(origin, trunc=MODEL_MAX))
     B.flush()
+    # ---- 1b. size independence: for every format, files whose header part / total size sits around every power of two
+    from gen import c20_files as G2
+    for name in GENS:
+        for kk in range(9, 17):
+            offs = [-1, 0, 1, rng.randint(-6, 6)] if ctx.tier == 'quick' else list(range(-4, 5)) + [rng.randint(-40, 40) for _ in range(4)]
+            for d in offs:
+                seed = rng.getrandbits(48)
+                target = 2 ** kk + d
+                b, expect, rec = generate_sized(name, target, seed)
+                if name == 'lis' and expect != 'LIS' and rec.get('first_pr') == 276:
+                    expect = None
+                B.run_one('sized:' + name, b, {'sized': name, 'target': target, 'seed': seed}, expect=expect, check_path=(d == 0 and kk % 4 == 0))
+        B.flush()
+    # ---- 1c. path histories: the answer is a function of the bytes, not of what was at that path before
+    run_histories(ctx, bft)
     # ---- 2. generated valid files of every format, every layout the generators know, varying content and size
     per = ctx.n(120, 1200)
     seeds_by_gen = {}
@@ -498,6 +645,12 @@ def run(ctx):
 def replay(ctx, rec):
     bft = _bft()
     case = rec['case']
+    if 'history' in case:
+        n0 = len(ctx.failures)
+        bad = run_history(ctx, bft, os.path.join(ctx.scratch, 'replay'), case['history'], stream='replay')
+        if bad is not None:
+            return False, ctx.failures[n0]['detail']
+        return True, f'history of {len(case["history"])} steps: every answer equals the answer for the bytes alone'
     try:
         b = materialise(case)
     except Exception as e:
